@@ -507,3 +507,39 @@ LANES = [
              "then close; exact bytes when the responsible component produced a contract-respecting value",
     ),
 ]
+
+
+_FZ_HANDLERS = [
+    {"kind": "value", "status": 20, "meta": "text/gemini", "body": "hi", "body_bytes": False},
+    {"kind": "async-value", "status": 20, "meta": "text/gemini", "body": "hi", "body_bytes": False, "gate": True},
+    {"kind": "raise", "exc": "ValueError", "msg": "a\r\nb"},
+    {"kind": "async-raise", "exc": "CancelledError", "msg": "x", "gate": False},
+    {"kind": "value", "status": 51, "meta": "nf", "body": "body on 51", "body_bytes": False},
+]
+_FZ_MW = [None, [{"kind": "allow", "gate": True}], [{"kind": "deny", "response": "53 Access denied\r\n", "gate": False}],
+          [{"kind": "deny-none", "gate": True}], [{"kind": "raise", "exc": "RuntimeError", "gate": False}]]
+_FZ_UP = [None, {"kind": "value", "status": 20, "meta": "text/gemini", "body": "ok", "body_bytes": False, "gate": False},
+          {"kind": "raise", "exc": "OSError", "msg": "disk", "gate": True}]
+
+
+def _fz_decode(fdp):
+    h = _FZ_HANDLERS[fdp.ConsumeIntInRange(0, len(_FZ_HANDLERS) - 1)]
+    mw = _FZ_MW[fdp.ConsumeIntInRange(0, len(_FZ_MW) - 1)]
+    up = _FZ_UP[fdp.ConsumeIntInRange(0, len(_FZ_UP) - 1)]
+    nsch = fdp.ConsumeIntInRange(0, 8)
+    schedule = [fdp.ConsumeIntInRange(0, 59) for _ in range(nsch)]
+    ncuts = fdp.ConsumeIntInRange(0, 4)
+    cutv = [fdp.ConsumeIntInRange(1, 1100) for _ in range(ncuts)]
+    flags = fdp.ConsumeIntInRange(0, 7)
+    data = fdp.ConsumeBytes(fdp.remaining_bytes())
+    cuts = sorted({c for c in cutv if c < len(data)})
+    return {"handler": h, "middleware": mw, "upload": up, "routing": "router-404" if flags & 1 else "direct",
+            "data": b2s(data), "cuts": cuts, "schedule": schedule, "after_close": "raise" if flags & 2 else "drop",
+            "disconnect": bool(flags & 4), "labels": ["atheris"]}
+
+
+FUZZ_LANES = [
+    {"name": "request-bytes", "lane": "proto", "decode": _fz_decode, "runs": {"thorough": 200000},
+     "seeds": [b"\x00\x00\x00\x00\x00\x00gemini://example.org/app/x\r\n", b"\x01\x01\x01\x02\x05\x09\x00\x00titan://example.org/f;size=3\r\nabcXY",
+               b"\x02\x03\x00\x00\x00\x00gemini://example.org/a\nb#f\r\n"]},
+]
